@@ -8,7 +8,7 @@
    -X; `spath g D [] s t p` says p is a simple path s -> t through pairs that have a price
    point at D, `at_most_one_path` that there is no second one (the property's quantifier:
    an edge, a reversed edge, a simple chain). *)
-From LedgerV Require Import Base.Prelude Gen.PriceMemo Gen.CostDate Gen.PercentExpr Gen.FindPriceDispatch Model.Prices Proofs.PricesProofs.
+From LedgerV Require Import Base.Prelude Gen.PriceMemo Gen.CostDate Gen.PercentExpr Gen.FindPriceDispatch Gen.PathWeight Model.Prices Proofs.PricesProofs Proofs.PricePathProofs.
 Local Open Scope Z_scope.
 
 (* ---- which entry an edge offers: the latest not after D, the later insertion winning a tie ---- *)
@@ -241,4 +241,110 @@ Example ex_chain : find_price (build ex_h) cA cC 50 = Some (mkPrice (14 # 1) cC)
 Proof. vm_compute. reflexivity. Qed.
 
 Example ex_before : find_price (build ex_h) cA cC 15 = None.
+Proof. vm_compute. reflexivity. Qed.
+
+(* ==== several price paths between two commodities (history.cc:435-546) ====
+   `find_price_via g s t D oldest` is the targeted lookup over a graph in which s and t may be
+   joined by several simple paths; `via_path g D oldest s t p` says p is a simple path s -> t of
+   the FILTERED graph (every pair on it has a price not after D and, when `oldest` is given, its
+   latest such price is not before `oldest`); `path_weight D p` is the distance Dijkstra assigns
+   to t along p, `step_age D st` = D - (moment of the step's price). *)
+
+(* the facts about history.cc the statements rest on, re-read on every run (Gen/PathWeight.v):
+   the weight of an edge is the age of its latest usable price, distances are combined with max,
+   the smaller distance wins *)
+Theorem path_weight_source_facts :
+  dijkstra_combine = CombineMax /\ edge_weight_is_age = true /\ smaller_weight_wins = true.
+Proof. exact path_weight_facts. Qed.
+Print Assumptions path_weight_source_facts.
+
+(* the weight of a path is the age of its stalest price *)
+Theorem path_weight_is_stalest_age : forall g D vis cur tgt p,
+  spath g D vis cur tgt p -> p <> [] ->
+  (exists st, In st p /\ path_weight D p = step_age D st) /\
+  (forall st, In st p -> step_age D st <= path_weight D p).
+Proof. exact spath_weight_is_max_age. Qed.
+Print Assumptions path_weight_is_stalest_age.
+
+(* what a successful lookup returns: the product, along a simple path of the filtered graph, of
+   each pair's latest price not after D (reciprocal where the quote runs the other way), dated
+   by the oldest price used; and no simple path of the filtered graph is lighter *)
+Theorem via_rate_is_product_along_a_lightest_path : forall h D oldest s t w pr,
+  find_price_via (build h) s t D oldest = Some (w, pr) ->
+  s <> t /\ exists p, via_path (build h) D oldest s t p /\
+    pc pr = t /\ (pq pr == path_product p)%Q /\
+    Forall (fun st => edge_point (build h) (s_from st) (s_to st) D = Some (s_pt st)) p /\
+    (forall q, via_path (build h) D oldest s t q -> path_weight D p <= path_weight D q) /\
+    (forall st, In st p -> w <= step_when st) /\ (exists st, In st p /\ w = step_when st).
+Proof. exact via_rate_product. Qed.
+Print Assumptions via_rate_is_product_along_a_lightest_path.
+
+Theorem via_no_path_no_price : forall h D oldest s t,
+  find_price_via (build h) s t D oldest = None <->
+  s = t \/ (forall p, ~ via_path (build h) D oldest s t p).
+Proof. intros. apply find_price_via_none. apply wf_build. Qed.
+Print Assumptions via_no_path_no_price.
+
+(* a path strictly lighter than every other one is the one taken, whatever the order in which
+   the pairs were first quoted (the tie-free case, the one compared with ledger) *)
+Theorem via_takes_the_strictly_lightest_path : forall h D oldest s t p,
+  s <> t -> via_path (build h) D oldest s t p ->
+  (forall q, via_path (build h) D oldest s t q -> path_weight D q <= path_weight D p -> q = p) ->
+  exists w pr, find_price_via (build h) s t D oldest = Some (w, pr) /\ pc pr = t /\
+    (pq pr == path_product p)%Q.
+Proof. exact via_strictly_lightest. Qed.
+Print Assumptions via_takes_the_strictly_lightest_path.
+
+(* `via_tie` = false certifies that case *)
+Theorem via_no_tie_means_strictly_lightest : forall h D oldest s t w pr,
+  via_tie (build h) s t D oldest = false ->
+  find_price_via (build h) s t D oldest = Some (w, pr) ->
+  exists p, via_path (build h) D oldest s t p /\ pr = mkPrice (Qred (path_q p)) t /\
+    forall q, via_path (build h) D oldest s t q -> q <> p -> path_weight D p < path_weight D q.
+Proof. intros h D oldest s t w pr. apply via_no_tie_strict. apply wf_build. Qed.
+Print Assumptions via_no_tie_means_strictly_lightest.
+
+(* with a unique path it is the lookup of the property's quantifier *)
+Theorem via_unique_path_is_find_price : forall h D s t,
+  at_most_one_path (build h) D s t ->
+  option_map snd (find_price_via (build h) s t D None) = find_price (build h) s t D.
+Proof. intros. apply find_price_via_unique_path; [apply wf_build | assumption]. Qed.
+Print Assumptions via_unique_path_is_find_price.
+
+Theorem via_unique_path_same_conversion : forall h prim a t D,
+  at_most_one_path (build h) D (hc a) t ->
+  convert_via (build h) a t D = convert (build h) prim a (Some t) D.
+Proof. intros. apply convert_via_unique_path; [apply wf_build | assumption]. Qed.
+Print Assumptions via_unique_path_same_conversion.
+
+(* without `oldest` the filtered graph is the one of the unique-path theorems *)
+Theorem via_path_without_oldest : forall g D s t p, via_path g D None s t p <-> spath g D [] s t p.
+Proof. exact via_path_no_oldest. Qed.
+Print Assumptions via_path_without_oldest.
+
+(* ---- satisfiable: a triangle AAA-CCC (stale direct quote, day 10) vs AAA-BBB-CCC (days 40, 45):
+   at D = 50 the two-hop path is taken (weight 10 < 40); at D = 42 only AAA-BBB and the direct
+   quote are usable and the direct quote is taken; with oldest = 20 the direct quote is out of range ---- *)
+Definition ex_tri : history :=
+  [mkEntry 10 cA (mkPrice (100 # 1) cC); mkEntry 40 cA (mkPrice (2 # 1) cB);
+   mkEntry 45 cC (mkPrice (1 # 4) cB)].
+
+Example ex_tri_fresh : find_price_via (build ex_tri) cA cC 50 None = Some (40, mkPrice (8 # 1) cC).
+Proof. vm_compute. reflexivity. Qed.
+
+Example ex_tri_direct : find_price_via (build ex_tri) cA cC 42 None = Some (10, mkPrice (100 # 1) cC).
+Proof. vm_compute. reflexivity. Qed.
+
+Example ex_tri_no_tie : via_tie (build ex_tri) cA cC 50 None = false.
+Proof. vm_compute. reflexivity. Qed.
+
+Example ex_tri_oldest : find_price_via (build ex_tri) cA cC 42 (Some 20) = None.
+Proof. vm_compute. reflexivity. Qed.
+
+Example ex_tri_two_paths : length (candidates (build ex_tri) 50 None cA cC) = 2%nat.
+Proof. vm_compute. reflexivity. Qed.
+
+(* the unique-path lookup (first path in creation order) would answer otherwise: the hypothesis of
+   the unique-path theorems really is needed there *)
+Example ex_tri_first_path : find_price (build ex_tri) cA cC 50 = Some (mkPrice (100 # 1) cC).
 Proof. vm_compute. reflexivity. Qed.
